@@ -8,6 +8,7 @@ import re
 
 from . import core
 from . import gen_solver as G
+from . import objectives
 from .isolate import fork_call
 from .suites import Report, SolverSuite, register, interleave, gen_nested, TIE_FAMILIES
 from .world import World, Monitor, read_solution, _reraise_if_harness, _innermost_file
@@ -42,7 +43,9 @@ class Summarizer(Monitor):
         except BaseException as e:
             _reraise_if_harness(e)
         ret = read_solution(outcome["result"]) if outcome.get("result") is not None else None
-        lst.append({"op": op["op"], "k": op.get("k", op.get("n")), "raised": (outcome.get("raised") or "").split(":")[0] or None,
+        lst.append({"op": op["op"], "k": op.get("k", op.get("n")), "evq": ({k: v for k, v in op.items() if k != "a"} if op["op"] == "evq" else None),
+                    "evq_answer": outcome.get("evq"),
+                    "raised": (outcome.get("raised") or "").split(":")[0] or None,
                     "n_calls": len(calls), "calls_h": core.short_hash(calls), "sd_h": core.short_hash(sd), "n_items": len(sd),
                     "results": res, "returned": ret})
 
@@ -54,9 +57,12 @@ def summarize_final(w, aid):
             "model_chosen": list(a.model.chosen), "stop_index": a.model.stop_index(a.params["eps"], int(a.params["itersLimit"]))}
 
 
-def solo_run(spec, ops, clock=None):
+def solo_run(spec, ops, clock=None, faults=None, cont=False):
     """Reference execution of one actor alone (run in a forked child)."""
     plan = G.base_plan("solo", 0, {"S": spec}, [dict(o, a="S") for o in ops], clock=clock or {})
+    if faults:
+        plan["faults"] = [dict(f, a="S") for f in faults]
+        plan["continue_after_fault"] = bool(cont)
     sm = Summarizer()
     w = World(plan, [sm]).run()
     out = summarize_final(w, "S")
@@ -130,8 +136,16 @@ class C11(SolverSuite):
         lim = spec["params"]["itersLimit"]
         total = rng.choice([0, rng.randint(0, max(1, lim)), rng.randint(0, lim + 6), rng.randint(0, 12)])
         batches = G.gen_batches(rng, total) if total else []
-        ops = [{"a": "S0", "op": "create"}] + [{"a": "S0", "op": "iterate", "k": k} for k in batches]
+        ops = [{"a": "S0", "op": "create"}]
+        peek = rng.random() < 0.35       # the caller reads GetResults() between the batches (reading must not steer the search)
+        for k in batches:
+            ops.append({"a": "S0", "op": "iterate", "k": k})
+            if peek and rng.random() < 0.6:
+                ops.append({"a": "S0", "op": "results"})
         ops.append({"a": "S0", "op": "solve"})
+        if rng.random() < 0.3 and not spec["params"].get("refineSolution"):
+            spec["brackets"] = False     # no listener at all on the solver (the library then never calls GetResults itself)
+        ops = G.sprinkle_evq(rng, ops, "S0", spec)
         u = rng.random()
         if u < 0.25:
             ops.append({"a": "S0", "op": "solve"})
@@ -379,11 +393,42 @@ class C12(SolverSuite):
                                    after_solve_iters=rng.choice([0, 0, rng.randint(1, 6)]))
             if rng.random() < 0.3:
                 ops.append({"a": aid, "op": "solve"})
+            ops = G.sprinkle_evq(rng, ops, aid, actors[aid], prob=0.1)
             lists.append(ops)
+        u = rng.random()
+        if u < 0.2:
+            # user code often builds ONE SolverParameters object and hands it to several solvers
+            base = actors["S0"]["params"]
+            for aid in actors:
+                if rng.random() < 0.8:
+                    actors[aid]["params"] = dict(base)
+                    actors[aid]["params_obj"] = "shared:P"
+        elif u < 0.3:
+            # ... or passes none at all (the library's default-argument object)
+            from .suites import DEFAULT_PARAMS
+            for i, aid in enumerate(sorted(actors)):
+                if rng.random() < 0.8:
+                    actors[aid]["params"] = dict(DEFAULT_PARAMS)
+                    actors[aid]["params_obj"] = "default"
+                    N = actors[aid]["objective"]["N"]
+                    if N > 1:      # eps=0.01 with 20000 iterations is a long search in dimension > 1: step it only
+                        lists[i] = [o for o in lists[i] if o["op"] != "solve"]
+        if rng.random() < 0.12:
+            # a 6-dimensional co-actor (merely constructed, or stepped a little)
+            aid = "S%d" % n_act
+            lo, up = objectives.gen_box(rng, 6)
+            actors[aid] = {"kind": "solver", "objective": objectives.gen_spec(rng, 6, lo, up), "lower": lo, "upper": up,
+                           "params": dict(actors["S0"]["params"]), "listeners": []}
+            if actors["S0"].get("params_obj"):
+                actors[aid]["params_obj"] = actors["S0"]["params_obj"]
+            lists.insert(0, [{"a": aid, "op": "create"}] + [{"a": aid, "op": "iterate", "k": rng.randint(1, 3)} for _ in range(rng.randint(0, 2))])
         ops = interleave(rng, lists)
         plan = G.base_plan(self.prop, run_seed, actors, ops, clock=G.gen_clock(rng))
         if rng.random() < 0.6:
             plan["nested"] = gen_nested(rng, plan, max_entries=4)
+            slow = {aid for aid, a in actors.items() if a.get("params_obj") == "default" and a["objective"]["N"] > 1}
+            for n in plan["nested"]:
+                n["ops"] = [o for o in n["ops"] if not (o["op"] == "solve" and o["a"] in slow)]
         return plan
 
     def check(self, plan):
@@ -417,6 +462,8 @@ class C12(SolverSuite):
                     o["k"] = s["k"]
                 if s["op"] == "refine":
                     o["n"] = s["k"]
+                if s["op"] == "evq":
+                    o = dict(s["evq"])
                 ops.append(o)
             solo = fork_call(solo_run, plan["actors"][aid], ops)
             rep.n_exec += 1
@@ -466,7 +513,15 @@ def gen_listeners(rng, N, n_trials_hint):
         u = rng.random()
         if u < 0.5:
             k = rng.randint(0, 7)
-            out.append({"kind": "recording", "overrides": [c for i, c in enumerate(ALL_CB) if k >> i & 1]})
+            ls = {"kind": "recording", "overrides": [c for i, c in enumerate(ALL_CB) if k >> i & 1]}
+            v = rng.random()
+            if v < 0.2:
+                ls["via"] = "inherited"     # callbacks defined in an intermediate class
+            elif v < 0.3:
+                ls["via"] = "mixin"         # callbacks come from a mixin
+            elif v < 0.38 and ls["overrides"]:
+                ls["via"] = "console"       # subclass of the shipped console listener overriding a subset (and calling super)
+            out.append(ls)
         elif u < 0.68:
             out.append({"kind": "console", "mode": rng.choice(["full", "custom", "result"]), "iters": rng.choice([1, 2, 5, 100])})
         elif u < 0.82:
@@ -594,7 +649,21 @@ class C13(SolverSuite):
             actors["S1"] = s1
             ops1 = G.gen_single_ops(rng, "S1", rng.randint(0, 8), with_solve=rng.random() < 0.8)
             ops = interleave(rng, [ops, ops1])
-        return G.base_plan(self.prop, run_seed, actors, ops, clock=G.gen_clock(rng))
+        plan = G.base_plan(self.prop, run_seed, actors, ops, clock=G.gen_clock(rng))
+        if rng.random() < 0.15:
+            # fault configuration: the objective raises once (inside a batch: the caller catches it; inside Solve: contained)
+            # and the caller keeps driving - every later notification must still carry exactly its own call's new trials
+            spec["params"]["refineSolution"] = False
+            spec["brackets"] = True
+            plan["faults"] = [{"a": "S0", "at_eval": rng.choice([2, 3, rng.randint(2, 12), rng.randint(2, 25)]),
+                               "exc": rng.choice(["ValueError", "KeyboardInterrupt", "SimFault"]), "when": rng.choice(["before", "after"]),
+                               "persistent": False, "noargs": rng.random() < 0.2}]
+            plan["continue_after_fault"] = True
+            for _ in range(rng.randint(1, 3)):
+                plan["ops"].append({"a": "S0", "op": "iterate", "k": rng.randint(1, 5)})
+            if rng.random() < 0.5:
+                plan["ops"].append({"a": "S0", "op": "solve"})
+        return plan
 
     def check(self, plan):
         rep = Report()
@@ -606,6 +675,7 @@ class C13(SolverSuite):
         a = w.actors["S0"]
         spec = plan["actors"]["S0"]
         P = self.prop
+        from .world import is_injected
 
         def bad(clause, msg, locus="listener"):
             rep.violations.append(core.Violation(P, clause, msg, locus))
@@ -617,6 +687,8 @@ class C13(SolverSuite):
         for mk in marks:
             if mk["raised"]:
                 exc = mk["exc"]
+                if exc is not None and is_injected(exc) and mk["op"]["op"] != "solve":
+                    continue     # the injected objective failure, propagated by DoGlobalIteration to the caller (expected)
                 if exc is not None and _is_numeric_degeneracy(exc):
                     # interp1d / Rbf / MLP rejecting degenerate search data (duplicate abscissae, singular
                     # matrix, too few points) in the 'interpolation'/'approximation' painter modes
@@ -648,6 +720,8 @@ class C13(SolverSuite):
                         bad("before_start_order", "BeforeMethodStart delivered after the first trial")
                 for mk in marks:
                     kind = mk["op"]["op"]
+                    if mk["raised"]:
+                        continue     # a call that raised (injected failure) promises no notification
                     oe = [e for e in a.cb_events[mk["ev_before"]:mk["ev_after"]] if e[1] == lid]
                     ends = [e for e in oe if e[2] == "OnEndIteration"]
                     stops = [e for e in oe if e[2] == "OnMethodStop"]
@@ -674,7 +748,7 @@ class C13(SolverSuite):
                                     bad("end_iteration_points", "inside Solve an OnEndIteration carried %d points, expected 1" % len(e[3].get("ys") or []))
                                     return True
                             nloc = len([c for c in op_calls if c.phase == "local"])
-                            want = [c.y for c in op_calls if c.completed][:len(op_calls) - nloc] if a.brackets else None
+                            want = [c.y for c in op_calls if c.completed and c.phase != "local"] if a.brackets else None
                             if want is None:
                                 # no phase information without brackets: the delivered points must be a prefix of the op's calls
                                 want = [c.y for c in op_calls if c.completed][:len(got)]
@@ -717,8 +791,10 @@ class C13(SolverSuite):
         twin_spec["listeners"] = []
         twin_spec["brackets"] = False
         ops = [o for o in plan["ops"] if o["a"] == "S0"]
-        twin = fork_call(solo_run, twin_spec, ops, plan.get("clock"))
+        twin = fork_call(solo_run, twin_spec, ops, plan.get("clock"), [f for f in plan.get("faults", []) if f["a"] == "S0"],
+                         plan.get("continue_after_fault", False))
         rep.n_exec += 1
+        rep.probes["fault_configuration"] += int(bool(a.fired_faults))
         mine = [(c.y, c.value) for c in real]
         theirs = [(y, v) for (ph, y, v, f) in twin["calls"]]
         d = first_diff(mine, theirs)
@@ -734,7 +810,7 @@ class C13(SolverSuite):
                 bad("interference_result", "with listeners %s Solve returned %r, without listeners %r" % (_lst_names(spec), k1, k2), "non-interference")
                 return rep
         # (4) console final report
-        cons = [ls for ls in spec["listeners"] if ls["kind"] == "console"]
+        cons = [ls for ls in spec["listeners"] if ls["kind"] == "console" or ls.get("via") == "console"]
         if cons:
             for mk in marks:
                 if mk["op"]["op"] != "solve" or mk["ret"] is None:
@@ -754,7 +830,8 @@ class C13(SolverSuite):
                             return rep
                 rep.probes["console_reports_checked"] += len(blocks)
         for ls in spec["listeners"]:
-            rep.probes["listener_" + ls["kind"] + ("_" + ls.get("mode", "") if ls["kind"] in ("console", "static") else "")] += 1
+            rep.probes["listener_" + ls["kind"] + ("_" + ls.get("mode", "") if ls["kind"] in ("console", "static") else "")
+                       + ("_via_" + ls["via"] if ls.get("via") else "")] += 1
         rep.probes["figure_writes"] += len(w.fs.files)
         rep.probes["mkdir"] += len(w.fs.dirs)
         ks = [o.get("k") for o in ops if o["op"] == "iterate"]
@@ -768,7 +845,7 @@ def _lst_names(spec):
     out = []
     for ls in spec["listeners"]:
         if ls["kind"] == "recording":
-            out.append("Recording(%s)" % ",".join(ls["overrides"]))
+            out.append("Recording%s(%s)" % ("/" + ls["via"] if ls.get("via") else "", ",".join(ls["overrides"])))
         else:
             out.append(ls["kind"] + ":" + str(ls.get("mode", "")))
     return "[" + "; ".join(out) + "]"
@@ -842,7 +919,8 @@ class C16(SolverSuite):
                     if rng.random() < 0.2:
                         ops.append({"a": "S0", "op": "results"})
                     yield G.base_plan(self.prop, run_seed, {"S0": spec}, ops, clock=clock,
-                                      faults=[{"a": "S0", "at_eval": k, "exc": exc, "when": when, "persistent": rng.random() < 0.3}])
+                                      faults=[{"a": "S0", "at_eval": k, "exc": exc, "when": when, "persistent": rng.random() < 0.3,
+                                               "noargs": rng.random() < 0.3}])
 
     def cases_refine(self, rng, tier, run_seed):
         """refineSolution=True: the failing evaluation ranges over the global AND the local phase."""
@@ -868,7 +946,8 @@ class C16(SolverSuite):
                 if rng.random() < 0.2:
                     ops.append({"a": "S0", "op": "results"})
                 yield G.base_plan(self.prop, run_seed, {"S0": spec}, ops, clock=clock, refine_case=True,
-                                  faults=[{"a": "S0", "at_eval": k, "exc": exc, "when": when, "persistent": rng.random() < 0.3}])
+                                  faults=[{"a": "S0", "at_eval": k, "exc": exc, "when": when, "persistent": rng.random() < 0.3,
+                                           "noargs": rng.random() < 0.3}])
 
     def check_refine(self, plan, rep, twin, bad):
         spec = plan["actors"]["S0"]
@@ -886,7 +965,7 @@ class C16(SolverSuite):
         rep.sig = core.short_hash((w.sig, k, ft["exc"], ft.get("when")))
         a = w.actors["S0"]
         phase = "global" if k <= T else "local"
-        tag = "fault %s(%s) at evaluation %d (%s phase, refineSolution=True)" % (ft["exc"], ft.get("when", "before"), k, phase)
+        tag = "fault %s%s(%s) at evaluation %d (%s phase, refineSolution=True)" % (ft["exc"], " without arguments" if ft.get("noargs") else "", ft.get("when", "before"), k, phase)
         if not a.fired_faults:
             rep.inconclusive["fault_not_fired"] += 1
             return rep
@@ -969,7 +1048,7 @@ class C16(SolverSuite):
         rep.digest = w.digest()
         rep.sig = core.short_hash((w.sig, k, ft["exc"], ft.get("when")))
         a = w.actors["S0"]
-        tag = "fault %s(%s) at evaluation %d" % (ft["exc"], ft.get("when", "before"), k)
+        tag = "fault %s%s(%s) at evaluation %d" % (ft["exc"], " without arguments" if ft.get("noargs") else "", ft.get("when", "before"), k)
         if not a.fired_faults:
             rep.inconclusive["fault_not_fired"] += 1
             return rep
@@ -1030,6 +1109,7 @@ class C16(SolverSuite):
         rep.probes["fault_after_new_opt"] += int(k >= 3 and tg[k - 2][1] == min(v for (y, v) in tg[:k - 1]) and tg[k - 2][1] < min(v for (y, v) in tg[:k - 2]))
         rep.probes["tie_pending"] += int(vals.count(mn) > 1)
         rep.probes["with_prefix"] += int(any(o["op"] == "iterate" for o in plan["ops"]))
+        rep.probes["exception_without_arguments"] += int(bool(ft.get("noargs")))
         if len(tg) >= 4:
             rep.nontrivial = core.short_hash((spec["objective"], spec.get("lower"), spec["params"], k, ft["exc"], ft.get("when")))
         return rep
